@@ -26,13 +26,15 @@ type Target struct {
 }
 
 type FanState struct {
-	Spec      *FanSpec
-	PwmPath   string
-	EnaPath   string
-	RpmPath   string
-	GetPwmExe string
-	SetPwmExe string
-	GetRpmExe string
+	Spec    *FanSpec
+	PwmPath string
+	EnaPath string
+	RpmPath string
+	// RpmConfigPath is what the configuration says when it differs from RpmPath ("~/..." for a file fan)
+	RpmConfigPath string
+	GetPwmExe     string
+	SetPwmExe     string
+	GetRpmExe     string
 	// plant
 	rpm      float64
 	spinning bool
@@ -184,14 +186,9 @@ func New(sc *Scenario, k *kernel.Kernel) (*World, error) {
 			st.Path = filepath.Join(dir, "files", s.ID+".temp")
 			if s.HomeRelative {
 				// fan2go expands "~" with os/user.Current().HomeDir
-				if u, err := user.Current(); err == nil && u.HomeDir != "" {
-					rel := filepath.Join(".verif-scratch", filepath.Base(dir))
-					if err := os.MkdirAll(filepath.Join(u.HomeDir, rel), 0755); err == nil {
-						w.homeScratch = filepath.Join(u.HomeDir, rel)
-						k.StripPrefix2 = w.homeScratch + "/"
-						st.Path = filepath.Join(w.homeScratch, s.ID+".temp")
-						st.ConfigPath = "~/" + filepath.Join(rel, s.ID+".temp")
-					}
+				if abs, rel, ok := w.ensureHomeScratch(dir); ok {
+					st.Path = filepath.Join(abs, s.ID+".temp")
+					st.ConfigPath = "~/" + filepath.Join(rel, s.ID+".temp")
 				}
 			}
 		case "cmd":
@@ -236,6 +233,13 @@ func New(sc *Scenario, k *kernel.Kernel) (*World, error) {
 			st.PwmPath = filepath.Join(dir, "files", f.ID+".pwm")
 			if !f.Plant.NoRpm {
 				st.RpmPath = filepath.Join(dir, "files", f.ID+".rpm")
+				if f.Kind == "file" && f.HomeRelRpm {
+					// the tachometer file is named relative to the home directory ("~/...")
+					if abs, rel, ok := w.ensureHomeScratch(dir); ok {
+						st.RpmPath = filepath.Join(abs, f.ID+".rpm")
+						st.RpmConfigPath = "~/" + filepath.Join(rel, f.ID+".rpm")
+					}
+				}
 			}
 			if f.Kind == "cmd" {
 				st.GetPwmExe = filepath.Join(dir, "scripts", f.ID+"_getpwm.sh")
@@ -296,6 +300,32 @@ func writeScript(path, content string) {
 		panic("world: " + err.Error())
 	}
 	_ = os.Chmod(path, 0755)
+}
+
+// ensureHomeScratch creates (once) the scratch directory of this world below the home directory of the current
+// user and returns its absolute path and its path relative to the home directory.
+func (w *World) ensureHomeScratch(dir string) (abs, rel string, ok bool) {
+	u, err := user.Current()
+	if err != nil || u.HomeDir == "" {
+		return "", "", false
+	}
+	rel = filepath.Join(".verif-scratch", filepath.Base(dir))
+	abs = filepath.Join(u.HomeDir, rel)
+	if err := os.MkdirAll(abs, 0755); err != nil {
+		return "", "", false
+	}
+	w.homeScratch = abs
+	w.K.StripPrefix2 = abs + "/"
+	return abs, rel, true
+}
+
+func (w *World) sensorSpec(id string) *SensorSpec {
+	for i := range w.Sc.Sensors {
+		if w.Sc.Sensors[i].ID == id {
+			return &w.Sc.Sensors[i]
+		}
+	}
+	return nil
 }
 
 func (w *World) sensorText(s *SensorSpec, t time.Duration) string {
@@ -881,6 +911,21 @@ func (w *World) BeforeExec(executable string, args []string) error {
 			writeScript(executable, "#!/bin/sh\necho 55\nexit 3\n")
 		case "garbage":
 			writeScript(executable, "#!/bin/sh\necho 'n/a %%'\n")
+		case "grouped":
+			// a tool that honours the locale prints the value with thousands grouping ("45,100"): either fan2go
+			// understands that (45100) or it is garbage to it - it is never forty-five
+			txt := "n/a"
+			if tg != nil && tg.Kind == "sensor" {
+				if sp := w.sensorSpec(tg.ID); sp != nil {
+					if v := sp.Prog.At(w.K.Now()); v >= 1000 {
+						txt = fmt.Sprintf("%d,%03d", v/1000, v%1000)
+						if v >= 1000000 {
+							txt = fmt.Sprintf("%d,%03d,%03d", v/1000000, v/1000%1000, v%1000)
+						}
+					}
+				}
+			}
+			writeScript(executable, "#!/bin/sh\necho '"+txt+"'\n")
 		case "nan":
 			writeScript(executable, "#!/bin/sh\necho nan\n")
 		case "inf":
